@@ -171,7 +171,22 @@ class SymStr:
 
     def replace(self, old, new, count=-1):
         if not isinstance(old, str) or not isinstance(new, str):
-            raise Unsupported("replace with symbolic pattern")
+            # symbolic pattern / replacement of known length: left-to-right, non-overlapping, each window test a solver-decided fork
+            oc, nc = _chars(old), _chars(new)
+            if not oc:
+                raise Unsupported("replace of empty pattern")
+            out, i, n, m, done = [], 0, len(self.cs), len(oc), 0
+            while i < n:
+                if i + m <= n and (count < 0 or done < count) and SymStr(self.cs[i:i + m]) == SymStr(oc):
+                    out.extend(nc)
+                    i += m
+                    done += 1
+                else:
+                    out.append(self.cs[i])
+                    i += 1
+            return SymStr(out)
+        if count is not None and count >= 0:
+            raise Unsupported("replace with a count")
         if len(old) != 1:
             return self._replace_multi(old, new)
         out: List[SymChar] = []
